@@ -57,7 +57,7 @@ package packet
 //@   ensures [nonempty] err == nil ==> len(u.Topics) >= 1
 //@   ensures [lens]     err == nil ==> forall i int {u.Topics[i]} :: 0 <= i && i < len(u.Topics) ==> len(u.Topics[i]) <= 65535
 //@   modifies u.ID, u.Topics, elems(u.Topics[0:cap(u.Topics)])
-//@   loop 1 invariant [pos]  hdr_ok(src, 10) && hlen(src) + 2 <= total && total + tl == hlen(src) + rlen(src) && u.ID == be16(src, hlen(src)) && u.ID != 0
+//@   loop 1 invariant [pos]  hdr_ok(src, 10) && hlen(src) + 2 <= total && total + tl == hlen(src) + rlen(src) && tl >= 0 && u.ID == be16(src, hlen(src)) && u.ID != 0
 //@   loop 1 invariant [lens] forall i int {u.Topics[i]} :: 0 <= i && i < len(u.Topics) ==> len(u.Topics[i]) <= 65535
 //@   loop 1 invariant [cnt]  tl < rlen(src) - 2 ==> len(u.Topics) >= 1
 //@   loop 1 invariant [own]  total <= len(src) && (fresh(u.Topics) || (arr(u.Topics) == arr(old(u.Topics)) && off(u.Topics) == off(old(u.Topics)) && cap(u.Topics) == cap(old(u.Topics))))
@@ -108,7 +108,7 @@ package packet
 //@   ensures [nonempty] err == nil ==> len(s.Subscriptions) >= 1
 //@   ensures [entries]  err == nil ==> forall i int {s.Subscriptions[i].Topic} :: 0 <= i && i < len(s.Subscriptions) ==> len(s.Subscriptions[i].Topic) <= 65535 && s.Subscriptions[i].QOS <= 2
 //@   modifies s.ID, s.Subscriptions, elems(s.Subscriptions[0:cap(s.Subscriptions)])
-//@   loop 1 invariant [pos]  hdr_ok(src, 8) && hlen(src) + 2 <= total && total + sl == hlen(src) + rlen(src) && s.ID == be16(src, hlen(src)) && s.ID != 0
+//@   loop 1 invariant [pos]  hdr_ok(src, 8) && hlen(src) + 2 <= total && total + sl == hlen(src) + rlen(src) && sl >= 0 && s.ID == be16(src, hlen(src)) && s.ID != 0
 //@   loop 1 invariant [ents] forall i int {s.Subscriptions[i].Topic} :: 0 <= i && i < len(s.Subscriptions) ==> len(s.Subscriptions[i].Topic) <= 65535 && s.Subscriptions[i].QOS <= 2
 //@   loop 1 invariant [cnt]  sl < rlen(src) - 2 ==> len(s.Subscriptions) >= 1
 //@   loop 1 invariant [own]  total <= len(src) && (fresh(s.Subscriptions) || (arr(s.Subscriptions) == arr(old(s.Subscriptions)) && off(s.Subscriptions) == off(old(s.Subscriptions)) && cap(s.Subscriptions) == cap(old(s.Subscriptions))))
